@@ -1,4 +1,96 @@
+mod storegen;
+mod storerun;
+mod worker;
+
+use std::io::{BufRead, Write};
+use std::path::PathBuf;
+use std::sync::atomic::{AtomicUsize, Ordering};
+use std::sync::{Arc, Mutex};
+
+use serde_json::Value;
+
+fn arg_val(args: &[String], name: &str) -> Option<String> {
+    args.iter().position(|a| a == name).and_then(|i| args.get(i + 1).cloned())
+}
+
+fn scratch_root() -> PathBuf {
+    let base = std::env::var("XSV_SCRATCH").unwrap_or("/dev/shm".to_string());
+    PathBuf::from(base).join(format!("xsv.{}", std::process::id()))
+}
+
 fn main() {
-    xs::verif::set_log(true);
-    println!("ok");
+    let args: Vec<String> = std::env::args().collect();
+    let cmd = args.get(1).map(|s| s.as_str()).unwrap_or("");
+    match cmd {
+        "worker" => {
+            let dir = PathBuf::from(&args[2]);
+            let clock = arg_val(&args, "--clock").map(|s| s.parse().unwrap());
+            worker::run(dir, clock, args.iter().any(|a| a == "--gate-gc"));
+        }
+        "store-gen" => {
+            let seed: u64 = arg_val(&args, "--seed").map(|s| s.parse().unwrap()).unwrap_or(0);
+            let n: i64 = arg_val(&args, "--n").map(|s| s.parse().unwrap()).unwrap_or(10);
+            let ops: usize = arg_val(&args, "--ops").map(|s| s.parse().unwrap()).unwrap_or(14);
+            let b0: i64 = arg_val(&args, "--b0").map(|s| s.parse().unwrap()).unwrap_or(100000);
+            let out = arg_val(&args, "--out").expect("--out");
+            let mut f = std::io::BufWriter::new(std::fs::File::create(out).unwrap());
+            for i in 0..n {
+                writeln!(f, "{}", storegen::gen(seed, b0 + i, ops)).unwrap();
+            }
+        }
+        "store-replay" => {
+            let inp = arg_val(&args, "--in").expect("--in");
+            let out = arg_val(&args, "--out").expect("--out");
+            let jobs: usize = arg_val(&args, "--jobs").map(|s| s.parse().unwrap()).unwrap_or(8);
+            let probes: usize = arg_val(&args, "--probes").map(|s| s.parse().unwrap()).unwrap_or(3);
+            let chunk: usize = arg_val(&args, "--chunk").map(|s| s.parse().unwrap()).unwrap_or(0);
+            let gate_gc = !args.iter().any(|a| a == "--no-gate-gc");
+            let behs: Vec<Value> = std::io::BufReader::new(std::fs::File::open(inp).unwrap())
+                .lines()
+                .map(|l| l.unwrap())
+                .filter(|l| !l.trim().is_empty())
+                .map(|l| serde_json::from_str(&l).unwrap())
+                .collect();
+            let root = scratch_root();
+            let n = behs.len();
+            let behs = Arc::new(behs);
+            let next = Arc::new(AtomicUsize::new(0));
+            let results: Arc<Mutex<Vec<Option<Vec<Value>>>>> = Arc::new(Mutex::new(vec![None; n]));
+            let mut hs = vec![];
+            for _ in 0..jobs {
+                let (behs, next, results, root) = (behs.clone(), next.clone(), results.clone(), root.clone());
+                hs.push(std::thread::spawn(move || loop {
+                    let i = next.fetch_add(1, Ordering::SeqCst);
+                    if i >= behs.len() {
+                        break;
+                    }
+                    let evs = storerun::run_behaviour(&root.join(format!("b{i}")), &behs[i], gate_gc, probes);
+                    results.lock().unwrap()[i] = Some(evs);
+                }));
+            }
+            for h in hs {
+                h.join().unwrap();
+            }
+            let _ = std::fs::remove_dir_all(&root);
+            let results = results.lock().unwrap();
+            // one output file, or chunks of `chunk` behaviours: <out>.<k>
+            let mut nev = 0usize;
+            let mut file: Option<std::io::BufWriter<std::fs::File>> = None;
+            for (i, r) in results.iter().enumerate() {
+                if file.is_none() || (chunk > 0 && i % chunk == 0) {
+                    let name = if chunk > 0 { format!("{out}.{}", i / chunk) } else { out.clone() };
+                    file = Some(std::io::BufWriter::new(std::fs::File::create(name).unwrap()));
+                }
+                for e in r.as_ref().unwrap() {
+                    writeln!(file.as_mut().unwrap(), "{}", e).unwrap();
+                    nev += 1;
+                }
+            }
+            println!("{{\"behaviours\": {n}, \"events\": {nev}}}");
+        }
+        _ => {
+            eprintln!("usage: xsv worker|store-gen|store-replay ...");
+            std::process::exit(2);
+        }
+    }
 }
